@@ -196,6 +196,9 @@ func (t *tr) joinState(x *ast.IfStmt) []string {
 				if op, ok := t.lookupOutParam(full); ok && op.Index < len(y.Args) {
 					add(strings.TrimPrefix(exprString(y.Args[op.Index]), "&"))
 				}
+				if root, _ := t.oracleCall(y); root != "" {
+					add(root) // (OracleVars) the call advances the oracle's state
+				}
 				if pos, ok := t.spec.InOutVal[full]; ok && pos < len(y.Args) {
 					add(exprString(y.Args[pos]))
 				}
